@@ -579,9 +579,16 @@ class Frame:
         return FALL
 
     def _is_append_chain(self, upd, me):
+        if upd[0] == 'call' and upd[1] == 'append' and len(upd[2]) == 2 and not upd[3] and upd[2][0] == me and upd[2][1][0] in ('list', 'tuple'):
+            return True                      # acc = np.append(acc, [a, b, ...])
         return upd[0] == 'listappend' and upd[1] == me
 
     def _append_chain(self, upd, me, init, key):
+        if upd[0] == 'call':
+            # x = np.array([]); for ..: x = np.append(x, [a, b])   ->   the per-iteration groups concatenated in loop order
+            if T.strip_nd(init) in (('list', ()), ('tuple', ())):
+                return ('concatmap', key, ('list', upd[2][1][1]))
+            return ('loopout', key, init, upd, FALSE)
         # x = []; for ..: x.append(v)   ->   map over the loop (when the list starts empty and the append is unguarded)
         if init in (('list', ()), ('tuple', ())) and upd[3] == TRUE:
             return ('map', key, upd[2])
@@ -1132,6 +1139,23 @@ class Frame:
         if r is not None:
             return r
         saved_env, saved_loops = dict(self.env), list(self.loops)
+        if kind == 'list' and len(n.generators) == 2 and not n.generators[0].ifs and not n.generators[1].ifs and isinstance(n.generators[1].target, ast.Name):
+            # [f(x, c) for x in X for c in (c1, c2)]: the groups [f(x, c1), f(x, c2)] concatenated in the order of X
+            g1, g2 = n.generators
+            self._iter_guard = TRUE
+            key, lv, elem = self.iter_binding(g1.iter)
+            if self._iter_guard == TRUE:
+                self.assign(g1.target, elem, n)
+                self.loops.append(lv)
+                items = self.literal_items(g2.iter)
+                if items is not None:
+                    group = []
+                    for it in items:
+                        self.assign(g2.target, it, n)
+                        group.append(self.ex(n.elt))
+                    self.env, self.loops = saved_env, saved_loops
+                    return ('concatmap', key, ('list', tuple(group)))
+            self.env, self.loops = dict(saved_env), list(saved_loops)
         keys, conds = [], []
         for g in n.generators:
             self._iter_guard = TRUE
